@@ -410,3 +410,67 @@ func verif_C13_smtp_equiv() {
 	}
 	verifReach("C13.equiv-end")
 }
+
+// verifLMTPCase: two accepted recipients that differ only in letter case (of the
+// local part, or of the domain), or not at all related: they are two recipients.
+// A per-recipient backend reports each one's verdict under the spelling it was
+// given, in RCPT order or in reverse, both explicitly or only the refusals (the
+// rest through its return value); DATA and BDAT LAST. Each reply names its own
+// recipient and carries that recipient's verdict, and nothing deadlocks.
+func verifLMTPCase(prop string) {
+	verifPreemptBound(1)
+	pair := [][]string{{"Box@v", "box@v"}, {"u@Example.ORG", "u@example.org"}, {"a@v", "b@v"}}[verifChoice(3)]
+	bdat := nondetBool()
+	reverse := nondetBool()
+	onlyRefusals := nondetBool()
+	ok := []bool{nondetBool(), nondetBool()}
+	be := &vbackend{lmtpSession: true}
+	be.lmtpFn = func(_ *vsession, r io.Reader, st StatusCollector) error {
+		verifReadAll(r, 4)
+		order := []int{0, 1}
+		if reverse {
+			order = []int{1, 0}
+		}
+		for _, i := range order {
+			if ok[i] {
+				if !onlyRefusals {
+					st.SetStatus(pair[i], nil)
+				}
+			} else {
+				st.SetStatus(pair[i], verifStatusErr(2))
+			}
+		}
+		return nil
+	}
+	s, lg := verifServer(be)
+	s.LMTP = true
+	in := "LHLO c\r\nMAIL FROM:<s@v>\r\nRCPT TO:<" + pair[0] + ">\r\nRCPT TO:<" + pair[1] + ">\r\n"
+	idx := 6 // greeting, LHLO, MAIL, RCPT, RCPT, 354
+	if bdat {
+		in += "BDAT 2 LAST\r\nhi"
+		idx = 5
+	} else {
+		in += "DATA\r\nhi\r\n.\r\n"
+	}
+	in += "NOOP\r\n"
+	vc, _, _ := verifServe(s, []byte(in), io.EOF)
+	reps, wf := verifParseReplies(vc.out)
+	verifObserve(prop+".lmtpcase", pair[0], bdat, reverse, onlyRefusals, ok[0], ok[1])
+	verifAssert(wf && lg.lines == 0 && verifPanicEvents() == 0, prop+".lmtp-case-clean")
+	verifAssert(wf && len(reps) == idx+3 && reps[idx+2].code == 250, prop+".lmtp-case-one-reply-per-recipient")
+	if wf && len(reps) == idx+3 {
+		for i := 0; i < 2; i++ {
+			r := reps[idx+i]
+			want := 250
+			if !ok[i] {
+				want = 550
+			}
+			verifAssert(r.code == want, prop+".lmtp-case-own-verdict")
+			verifAssert(len(r.lines) == 1 && strings.Contains(r.lines[0], "<"+pair[i]+">"), prop+".lmtp-case-names-own-recipient")
+		}
+	}
+	verifAssert(verifGoroutinesAlive() == 0, prop+".lmtp-case-no-goroutine-left")
+	verifReach(prop + ".lmtp-case-end")
+}
+
+func verif_C13_lmtp_case() { verifLMTPCase("C13") }
